@@ -62,6 +62,7 @@ type Specs struct {
 	GhostList []string
 	Contracts map[string]*Contract
 	Files     []string
+	OnAlloc   map[string][]*SExpr // type key -> facts about a freshly allocated object "it"
 }
 
 func sortByName(n string) *Sort {
@@ -74,6 +75,14 @@ func sortByName(n string) *Sort {
 		return SStr
 	case "Ref":
 		return SRef
+	case "RefStrArr":
+		return SArray(SRef, SStr)
+	case "RefIntArr":
+		return SArray(SRef, SInt)
+	case "RefRefArr":
+		return SArray(SRef, SRef)
+	case "RefBoolArr":
+		return SArray(SRef, SBool)
 	case "IntArr":
 		return SArray(SInt, SInt)
 	case "StrArr":
@@ -88,7 +97,7 @@ var labelRe = regexp.MustCompile(`^([A-Za-z0-9_,.\-/]+):\s+(.*)$`)
 var propRe = regexp.MustCompile(`^(C[0-9]{2}(?:,C[0-9]{2})*)\.`)
 
 func loadSpecs(repoDir, libDir string) (*Specs, error) {
-	sp := &Specs{Pure: map[string]*PureDef{}, Abstract: map[string]*AbsDef{}, Ghost: map[string]*GhostDef{}, Contracts: map[string]*Contract{}}
+	sp := &Specs{Pure: map[string]*PureDef{}, Abstract: map[string]*AbsDef{}, Ghost: map[string]*GhostDef{}, Contracts: map[string]*Contract{}, OnAlloc: map[string][]*SExpr{}}
 	var files []string
 	filepath.Walk(filepath.Join(repoDir, "pkg"), func(p string, info os.FileInfo, err error) error {
 		if err == nil && !info.IsDir() && filepath.Base(p) == "contracts_verif.go" {
@@ -138,7 +147,7 @@ func (sp *Specs) parseFile(path string, goFile bool) error {
 		lines = append(lines, line{i + 1, l})
 	}
 	// join continuation lines: a line whose first word is not a keyword continues the previous one
-	keywords := map[string]bool{"func": true, "lib": true, "pure": true, "abstract": true, "ghost": true, "requires": true, "ensures": true,
+	keywords := map[string]bool{"onalloc": true, "func": true, "lib": true, "pure": true, "abstract": true, "ghost": true, "requires": true, "ensures": true,
 		"loop": true, "assigns": true, "fresh": true, "names": true, "inline": true, "property": true, "assume": true, "canary": true, "cover": true, "effectfree": true}
 	var joined []line
 	for _, l := range lines {
@@ -189,6 +198,13 @@ func (sp *Specs) parseFile(path string, goFile bool) error {
 			}
 			ad.Ret = sortByName(strings.TrimSpace(rest[j+1:]))
 			sp.Abstract[name] = ad
+		case "onalloc":
+			// onalloc <type key> <expr over it>
+			e, err := parseSpecExpr(strings.TrimSpace(strings.TrimPrefix(rest, f[1])))
+			if err != nil {
+				return fail(err)
+			}
+			sp.OnAlloc[f[1]] = append(sp.OnAlloc[f[1]], e)
 		case "ghost":
 			// ghost name Sort [= init]
 			gd := &GhostDef{Name: f[1], S: sortByName(f[2])}
